@@ -97,12 +97,21 @@ func (o OracleC02) After(x *Exec, op *Op, res *Res) {
 		}
 		o.compareStore(x, post, "after undelegate")
 	case KSlash, KSlashHook:
-		// amounts after slashing are C07's business; C02 keeps the ledger in step with a
-		// store that deviates only by a classified finding of C07.
-		if !eqStrings(post.UnbMultiset(), x.L.UnbMultiset()) {
-			x.L.ResyncUnb(post)
-			x.Label("c02:resync-after-slash")
+		// "a minus only the slashes applied to V while the entry was pending": after a slash every
+		// stored entry must equal the ledger's (entries from the slashed validator reduced once by
+		// floor(f*balance), everything else untouched). Only after an aborted callback (C08's
+		// business, listed finding F-C08b) does the ledger adopt the store.
+		if x.L.LastSlashHookErr != "" || res.Panic != "" {
+			if !eqStrings(post.UnbMultiset(), x.L.UnbMultiset()) {
+				x.L.ResyncUnb(post)
+				x.Label("c02:resync-after-aborted-slash-callback")
+			}
+			break
 		}
+		if x.L.LastSlashFrac != nil {
+			x.Label("c02:slash-judged")
+		}
+		o.compareStore(x, post, "after slash")
 	default:
 		o.compareStore(x, post, "after "+op.K)
 	}
